@@ -35,11 +35,14 @@ VARIABLES inst,          \* the data instance (fixed in Init)
           polys,         \* set of polygon ids registered with the dataset
           pver, pinv,    \* [Polys -> version], [Polys -> BOOLEAN] (global objects)
           removeInvalid, enable, limit,
+          extra,         \* a further scalar feature has become available that holds
+                         \* invalid values at the events ExtraInvalid (it arrives
+                         \* on the open dataset, e.g. a temporary feature)
           manual,        \* set of manually excluded events
           memo,          \* <<Expected, Required>> -> subset chosen (reproducibility)
           last           \* last operation and what must be observable after it
 
-fvars == <<inst, ranges, polys, pver, pinv, removeInvalid, enable, limit,
+fvars == <<inst, ranges, polys, pver, pinv, removeInvalid, enable, limit, extra,
            manual, memo, last>>
 
 Data == DataOf(inst)
@@ -62,7 +65,11 @@ InPoly(p, e) ==
         ins == Finite(x) /\ Finite(y) /\ Inside(p, pver[p], x, y)
     IN  IF pinv[p] THEN ~ins ELSE ins
 
-Invalid(e) == \E f \in Feats : ~Finite(Data[f][e])
+\* the events at which the feature that arrives later is invalid: every other
+\* event of the instance
+ExtraInvalid == {e \in Events : e % 2 = 0}
+Invalid(e) == \/ \E f \in Feats : ~Finite(Data[f][e])
+              \/ extra /\ e \in ExtraInvalid
 
 Qualifies(e) ==
     /\ \A f \in Feats : InRange(ranges[f], Data[f][e])
@@ -88,6 +95,7 @@ SpecInit ==
     /\ pver = [p \in Polys |-> CHOOSE v \in PolyVers : \A w \in PolyVers : v <= w]
     /\ pinv = [p \in Polys |-> FALSE]
     /\ removeInvalid = FALSE /\ enable = TRUE /\ limit = 0
+    /\ extra = FALSE
     /\ manual = {}
     /\ memo = <<>>
     /\ last = [a |-> "init"]
@@ -96,59 +104,66 @@ Edit(name, arg) == last' = [a |-> name, arg |-> arg, settings |-> Settings']
 
 SetRange(f, pr) ==
     /\ ranges' = [ranges EXCEPT ![f] = [set |-> TRUE, lo |-> pr[1], hi |-> pr[2]]]
-    /\ UNCHANGED <<inst, polys, pver, pinv, removeInvalid, enable, limit, manual, memo>>
+    /\ UNCHANGED <<inst, extra, polys, pver, pinv, removeInvalid, enable, limit, manual, memo>>
     /\ Edit("setrange", <<f, pr[1], pr[2]>>)
 
 RemoveRange(f) ==
     /\ ranges[f].set
     /\ ranges' = [ranges EXCEPT ![f] = Unset]
-    /\ UNCHANGED <<inst, polys, pver, pinv, removeInvalid, enable, limit, manual, memo>>
+    /\ UNCHANGED <<inst, extra, polys, pver, pinv, removeInvalid, enable, limit, manual, memo>>
     /\ Edit("rmrange", <<f>>)
 
 AddPoly(p) ==
     /\ p \notin polys
     /\ polys' = polys \cup {p}
-    /\ UNCHANGED <<inst, ranges, pver, pinv, removeInvalid, enable, limit, manual, memo>>
+    /\ UNCHANGED <<inst, extra, ranges, pver, pinv, removeInvalid, enable, limit, manual, memo>>
     /\ Edit("addpoly", <<p>>)
 
 RmPoly(p) ==
     /\ p \in polys
     /\ polys' = polys \ {p}
-    /\ UNCHANGED <<inst, ranges, pver, pinv, removeInvalid, enable, limit, manual, memo>>
+    /\ UNCHANGED <<inst, extra, ranges, pver, pinv, removeInvalid, enable, limit, manual, memo>>
     /\ Edit("rmpoly", <<p>>)
 
 \* the polygon object is modified (new vertices), registered or not
 ModifyPoly(p, v) ==
     /\ pver[p] # v
     /\ pver' = [pver EXCEPT ![p] = v]
-    /\ UNCHANGED <<inst, ranges, polys, pinv, removeInvalid, enable, limit, manual, memo>>
+    /\ UNCHANGED <<inst, extra, ranges, polys, pinv, removeInvalid, enable, limit, manual, memo>>
     /\ Edit("modpoly", <<p, v>>)
 
 InvertPoly(p) ==
     /\ pinv' = [pinv EXCEPT ![p] = ~pinv[p]]
-    /\ UNCHANGED <<inst, ranges, polys, pver, removeInvalid, enable, limit, manual, memo>>
+    /\ UNCHANGED <<inst, extra, ranges, polys, pver, removeInvalid, enable, limit, manual, memo>>
     /\ Edit("invpoly", <<p>>)
+
+\* a scalar feature with invalid values becomes available on the open dataset
+\* (the settings do not change)
+AddFeature ==
+    /\ ~extra /\ extra' = TRUE
+    /\ UNCHANGED <<inst, ranges, polys, pver, pinv, removeInvalid, enable, limit, manual, memo>>
+    /\ Edit("addfeature", <<>>)
 
 ToggleInvalid ==
     /\ removeInvalid' = ~removeInvalid
-    /\ UNCHANGED <<inst, ranges, polys, pver, pinv, enable, limit, manual, memo>>
+    /\ UNCHANGED <<inst, extra, ranges, polys, pver, pinv, enable, limit, manual, memo>>
     /\ Edit("toginvalid", <<>>)
 
 ToggleEnable ==
     /\ enable' = ~enable
-    /\ UNCHANGED <<inst, ranges, polys, pver, pinv, removeInvalid, limit, manual, memo>>
+    /\ UNCHANGED <<inst, extra, ranges, polys, pver, pinv, removeInvalid, limit, manual, memo>>
     /\ Edit("togenable", <<>>)
 
 SetLimit(k) ==
     /\ limit # k
     /\ limit' = k
-    /\ UNCHANGED <<inst, ranges, polys, pver, pinv, removeInvalid, enable, manual, memo>>
+    /\ UNCHANGED <<inst, extra, ranges, polys, pver, pinv, removeInvalid, enable, manual, memo>>
     /\ Edit("setlimit", <<k>>)
 
 \* flip the manual exclusion of event e
 EditManual(e) ==
     /\ manual' = IF e \in manual THEN manual \ {e} ELSE manual \cup {e}
-    /\ UNCHANGED <<inst, ranges, polys, pver, pinv, removeInvalid, enable, limit, memo>>
+    /\ UNCHANGED <<inst, extra, ranges, polys, pver, pinv, removeInvalid, enable, limit, memo>>
     /\ Edit("manual", <<e>>)
 
 \* reset_filter(): manual exclusions, polygon list, flags and limit return to
@@ -159,7 +174,7 @@ Reset ==
     /\ manual' = {} /\ polys' = {} /\ removeInvalid' = FALSE
     /\ enable' = TRUE /\ limit' = 0
     /\ ranges' \in {ranges, [f \in Feats |-> Unset]}
-    /\ UNCHANGED <<inst, pver, pinv, memo>>
+    /\ UNCHANGED <<inst, extra, pver, pinv, memo>>
     /\ Edit("reset", <<>>)
 
 \* apply_filter(): the selection is Expected; with an event limit a subset
@@ -174,7 +189,7 @@ ApplyWith(force, S) ==
                THEN memo ELSE Append(memo, <<key, S>>)
     /\ last' = [a |-> "apply", arg |-> <<force>>, expected |-> Expected,
                 required |-> Required, all |-> S]
-    /\ UNCHANGED <<inst, ranges, polys, pver, pinv, removeInvalid, enable, limit, manual>>
+    /\ UNCHANGED <<inst, extra, ranges, polys, pver, pinv, removeInvalid, enable, limit, manual>>
 
 Apply(force) == \E S \in SUBSET Expected : ApplyWith(force, S)
 
@@ -183,7 +198,7 @@ EditStep ==
     \/ \E f \in Feats : RemoveRange(f)
     \/ \E p \in Polys : AddPoly(p) \/ RmPoly(p) \/ InvertPoly(p)
     \/ \E p \in Polys, v \in PolyVers : ModifyPoly(p, v)
-    \/ ToggleInvalid \/ ToggleEnable
+    \/ ToggleInvalid \/ ToggleEnable \/ AddFeature
     \/ \E k \in Limits : SetLimit(k)
     \/ \E e \in Events : EditManual(e)
     \/ Reset
